@@ -302,8 +302,9 @@ _TEXTS = {
             "combination. Bounded only: the Cython/C readers (xtc, trr, dcd, dtr, binpos), the one-frame text parsers themselves."),
     "C04": (_T_PY, "Deductive: the real Topology/Chain/Residue/Atom/Bond code on a fixed shape (2 chains, 3 residues, 5 atoms, 4 typed bonds) with symbolic "
             "resSeq/serial: copy/__copy__/__deepcopy__, subset for all 31 subsets, join, in-place edits, ==/hash: abstract view equality, well-formedness, bond "
-            "endpoints are own atoms, independence of the copy; the HDF5 topology setter/getter pair returns what its schema holds for every resSeq value. "
-            "Complete in the values, bounded in the shape. Bounded only: other shapes, carriers PDB, DataFrame, pickle."),
+            "endpoints are own atoms, independence of the copy; the HDF5 topology setter/getter pair returns what its schema holds for every resSeq value; the DataFrame carrier "
+            "(to_dataframe then from_dataframe over a table model of pandas.DataFrame) returns the same chains, residues, atoms and typed bonds, also when a chain starts with the "
+            "residue label the previous chain ended with. Complete in the values, bounded in the shape. Bounded only: other shapes, carriers PDB and pickle, pandas itself."),
     "C05": (_T_C, "Deductive: dist, dist_mic, dist_mic_triclinic for ALL frames and pairs (loop invariants): lattice congruence with explicit integer witnesses, "
             "wrap bounds, box reduction keeps the lattice, all 27 images examined, result is one of them and not longer than any, d^2=|out|^2, frame conditions; lemma L1; "
             "compute_distances_core dispatch (minimum-image path iff periodic and cell; orthorhombic kernel iff every frame orthogonal; box transposed once); "
